@@ -1,3 +1,4 @@
+import MioModel.Lemmas.SendLoop
 import MioModel.Lemmas.Net
 import MioModel.Props.C12
 import MioModel.Lemmas.Stream
@@ -101,5 +102,15 @@ example : ∃ s, run {} [.connect 1, .send 0 .sent, .pollRemote 0 false, .pendin
     .send 0 .sent, .remove 0, .send 0 .sent] = some s ∧
     s.results.map (·.2.2) = ["ok", "ResourceNotAvailable", "Sent", "true", "ResourceNotFound"] ∧
     s.adapterSends = [0] := ⟨_, rfl, by decide, by decide⟩
+
+/-- the statuses the stream adapters' send loops can produce: `Sent` (everything written),
+`ResourceNotFound` (the kernel reported an error) — never `ResourceNotAvailable`, never
+`MaxPacketSizeExceeded`; `none` = the call has not returned yet -/
+theorem stream_send_statuses (data : Mio.Bytes) (sched : List Mio.Stream.WAns) :
+    ((Mio.Stream.tcpSend data sched).status = none ∨ (Mio.Stream.tcpSend data sched).status = some .sent ∨
+      (Mio.Stream.tcpSend data sched).status = some .resourceNotFound) ∧
+    ((Mio.Stream.framedSend data sched).status = none ∨ (Mio.Stream.framedSend data sched).status = some .sent ∨
+      (Mio.Stream.framedSend data sched).status = some .resourceNotFound) :=
+  ⟨Mio.Stream.tcpSendLoop_statuses data sched 0, Mio.Stream.framedSendLoop_statuses _ data sched 0⟩
 
 end Mio.C13
